@@ -325,6 +325,78 @@ def _redundant_guard_pass(fn) -> bool:
     return changed
 
 
+def _fstring_concat_pass(fn) -> bool:
+    """`f"a{x}" + f"b{y}"` (or a plain text literal on either side) is the one f-string `f"a{x}b{y}"`."""
+    changed = [False]
+
+    def parts(e):
+        if isinstance(e, ast.JoinedStr):
+            return list(e.values)
+        if isinstance(e, ast.Constant) and isinstance(e.value, str):
+            return [e]
+        return None
+
+    class T(ast.NodeTransformer):
+        def visit_BinOp(self, node):
+            self.generic_visit(node)
+            if isinstance(node.op, ast.Add) and (isinstance(node.left, ast.JoinedStr) or isinstance(node.right, ast.JoinedStr)):
+                a, b = parts(node.left), parts(node.right)
+                if a is not None and b is not None:
+                    merged = []
+                    for v in a + b:
+                        if isinstance(v, ast.Constant) and merged and isinstance(merged[-1], ast.Constant):
+                            merged[-1] = ast.Constant(value=merged[-1].value + v.value)
+                        else:
+                            merged.append(v)
+                    changed[0] = True
+                    return ast.copy_location(ast.JoinedStr(values=merged), node)
+            return node
+
+    T().visit(fn)
+    if changed[0]:
+        ast.fix_missing_locations(fn)
+    return changed[0]
+
+
+def _bool_argument_pass(fn) -> bool:
+    """`if C: f(.., True, ..) else: f(.., False, ..)` - the two branches one call statement each, equal but for one
+    boolean constant - is `f(.., C, ..)` (`not C` for False/True).  Only where C is a comparison or a negation, i.e.
+    already a truth value, so that the argument is the same object either way."""
+    changed = False
+    for owner, field, lst in list(_stmt_lists(fn)):
+        new = []
+        for st in lst:
+            merged = None
+            if (isinstance(st, ast.If) and len(st.body) == 1 and len(st.orelse) == 1 and isinstance(st.body[0], ast.Expr) and isinstance(st.orelse[0], ast.Expr)
+                    and isinstance(st.body[0].value, ast.Call) and isinstance(st.orelse[0].value, ast.Call)
+                    and (isinstance(st.test, ast.Compare) or (isinstance(st.test, ast.UnaryOp) and isinstance(st.test.op, ast.Not) and isinstance(st.test.operand, ast.Compare)))):
+                a, b = st.body[0].value, st.orelse[0].value
+                if norm(a.func) == norm(b.func) and len(a.args) == len(b.args) and [k.arg for k in a.keywords] == [k.arg for k in b.keywords]:
+                    pa = list(a.args) + [k.value for k in a.keywords]
+                    pb = list(b.args) + [k.value for k in b.keywords]
+                    diff = [i for i, (x, y) in enumerate(zip(pa, pb)) if norm(x) != norm(y)]
+                    if len(diff) == 1:
+                        x, y = pa[diff[0]], pb[diff[0]]
+                        if isinstance(x, ast.Constant) and isinstance(y, ast.Constant) and isinstance(x.value, bool) and isinstance(y.value, bool) and x.value != y.value:
+                            # arguments before the boolean one must be free of calls (they are evaluated before C in the merged form, after it in the branches)
+                            if not any(isinstance(n, ast.Call) for arg in pa[:diff[0]] for n in ast.walk(arg)) and not any(isinstance(n, ast.Call) for n in ast.walk(a.func)):
+                                cond = st.test if x.value else ast.UnaryOp(op=ast.Not(), operand=st.test)
+                                call = inline._copy_node(a)
+                                if diff[0] < len(call.args):
+                                    call.args[diff[0]] = cond
+                                else:
+                                    call.keywords[diff[0] - len(call.args)].value = cond
+                                merged = ast.copy_location(ast.Expr(value=call), st)
+                                ast.fix_missing_locations(merged)
+            if merged is not None:
+                new.append(merged)
+                changed = True
+            else:
+                new.append(st)
+        setattr(owner, field, new)
+    return changed
+
+
 def _ends(stmts) -> bool:
     return bool(stmts) and isinstance(stmts[-1], (ast.Return, ast.Raise, ast.Continue, ast.Break))
 
@@ -540,9 +612,38 @@ def _unroll_pass(fn) -> bool:
                 return ast.copy_location(ast.Constant(value=self.value), node)
             return node
 
+    class SubMany(ast.NodeTransformer):
+        def __init__(self, mapping):
+            self.mapping = mapping
+
+        def visit_Name(self, node):
+            if node.id in self.mapping and isinstance(node.ctx, ast.Load):
+                return ast.copy_location(inline._copy_node(self.mapping[node.id]), node)
+            return node
+
+    def ref_only(e):
+        return isinstance(e, ast.Constant) or (isinstance(e, (ast.Name, ast.Attribute)) and inline.pure_ref(e))
+
     for owner, field, lst in list(_stmt_lists(fn)):
         new = []
         for st in lst:
+            # `for a, b in (("x", self.f), ("y", self.g)): body` - rows of constants and plain references (bound methods,
+            # names), as many per row as targets, nothing in the body stores to what the rows mention
+            if (isinstance(st, ast.For) and not st.orelse and isinstance(st.target, ast.Tuple) and all(isinstance(t, ast.Name) for t in st.target.elts)
+                    and isinstance(st.iter, (ast.Tuple, ast.List)) and 1 <= len(st.iter.elts) <= 8
+                    and all(isinstance(r, (ast.Tuple, ast.List)) and len(r.elts) == len(st.target.elts) and all(ref_only(e) for e in r.elts) for r in st.iter.elts)
+                    and not any(isinstance(x, (ast.Break, ast.Continue)) for b in st.body for x in ast.walk(b))):
+                tnames = [t.id for t in st.target.elts]
+                mentioned = {norm(e) for r in st.iter.elts for e in r.elts if not isinstance(e, ast.Constant)}
+                stored = {norm(x) for b in st.body for x in ast.walk(b) if isinstance(x, (ast.Name, ast.Attribute)) and isinstance(x.ctx, (ast.Store, ast.Del))}
+                idx = lst.index(st)
+                later = any(isinstance(x, ast.Name) and x.id in tnames for other in lst[idx + 1:] for x in ast.walk(other))
+                if not (stored & (mentioned | set(tnames))) and not later:
+                    for r in st.iter.elts:
+                        for b in st.body:
+                            new.append(SubMany(dict(zip(tnames, r.elts))).visit(inline._copy_node(b)))
+                    changed = True
+                    continue
             if (isinstance(st, ast.For) and not st.orelse and isinstance(st.target, ast.Name) and isinstance(st.iter, (ast.Tuple, ast.List)) and 1 <= len(st.iter.elts) <= 8
                     and all(isinstance(e, ast.Constant) for e in st.iter.elts)
                     and not any(isinstance(x, (ast.Break, ast.Continue)) for b in st.body for x in ast.walk(b))
@@ -583,6 +684,8 @@ def normalise(repo, finfo, keep=(), helpers=True, aliases=True, comps=True, ifex
         fn = inline._copy_node(fn)
     _allany_pass(fn)
     _quantifier_branch_pass(fn)
+    _bool_argument_pass(fn)
+    _fstring_concat_pass(fn)
     _redundant_guard_pass(fn)
     _unroll_pass(fn)
     _while_true_pass(fn)
